@@ -132,6 +132,12 @@ def run_cfg(ctx, p, cfg):
                 news = [x for x in walk(v) if x[0] == "call" and x[1] == NEW]
                 if news:
                     r.require(deep_strip(news[0][2][0])[0] == "field" and deep_strip(news[0][2][0])[1] == ("param", 1), "with-own-config", fn=f, detail="TimeTrigger::new(self.config)")
+            # the schedule that follows a rotation is computed from the trigger's own configuration, not from an altered copy
+            # (a copy with modulate/interval changed moves every later boundary off the configured grid)
+            cfg_adt = "append::rolling_file::policy::compound::trigger::time::TimeTriggerConfig"
+            rebuilt = [(b, i) for b, i, s in f.assigns() if s["rv"]["k"] == "agg" and s["rv"].get("adt") == cfg_adt]
+            r.require(not rebuilt, "rescheduled-with-own-config", fn=f, detail="no TimeTriggerConfig is constructed while rescheduling",
+                      fail_detail="Trigger::trigger builds a TimeTriggerConfig of its own (bb%s) to compute the next rotation: the reschedule no longer follows the configured interval/modulate/delay" % [b for b, i in rebuilt])
             r.require(all(rb in span.after_release for rb in f.return_blocks()), "guard-released", fn=f, detail="the guard is dropped before returning")
 
     with ctx.rule("Q4", "schedule shape", cfg) as r:
